@@ -29,7 +29,7 @@ def evaluate(patch, props):
     subprocess.run(["git", "-C", "/repo", "worktree", "add", "-q", "--detach", wt, "HEAD"], check=True)
     try:
         subprocess.run(["git", "-C", wt, "apply", os.path.abspath(patch)], check=True)
-        with cf.ThreadPoolExecutor(10) as ex:
+        with cf.ThreadPoolExecutor(int(os.environ.get("SEEDED_THREADS", "10"))) as ex:
             res = list(ex.map(lambda pr: run_check(pr, wt), props))
     finally:
         subprocess.run(["git", "-C", "/repo", "worktree", "remove", "--force", wt])
@@ -44,16 +44,21 @@ def main():
             print("%s rc=%d %s %s" % (r["prop"], r["rc"], "VIOLATION" + ("" if r["concrete"] else "(no-failing-input)") if r["violation"] else "ok", r["first"][:160]))
     elif sys.argv[1] == "all":
         results = {}
-        for d in sorted(glob.glob(os.path.join(VERIF, "seeded", "*", "patch.diff"))):
+        os.environ.setdefault("SEEDED_THREADS", "7")
+
+        def one(d):
             name = os.path.basename(os.path.dirname(d))
             meta = json.load(open(os.path.join(os.path.dirname(d), "meta.json")))
             res = evaluate(d, PROPS)
             caught = [r["prop"] for r in res if r["violation"]]
             concrete = [r["prop"] for r in res if r["concrete"]]
             errors = [r["prop"] for r in res if r["rc"] == 2]
-            results[name] = dict(breaks=meta["property"], caught_by=caught, with_failing_input=concrete, errors=errors,
-                                 target_caught=meta["property"] in caught)
             print(name, "breaks", meta["property"], "caught_by", caught, "concrete", concrete, "errors", errors, flush=True)
+            return name, dict(breaks=meta["property"], caught_by=caught, with_failing_input=concrete, errors=errors,
+                              target_caught=meta["property"] in caught)
+        with cf.ThreadPoolExecutor(2) as ex:
+            for name, r in ex.map(one, sorted(glob.glob(os.path.join(VERIF, "seeded", "*", "patch.diff")))):
+                results[name] = r
         json.dump(results, open(os.path.join(VERIF, "seeded", "RESULTS.json"), "w"), indent=1)
 
 
